@@ -31,6 +31,7 @@ def _metric(cfg, alt=None, cl=None):
                           equal_var=cfg["equal_var"], use_t=cfg["use_t"])
 
 
+@H.under_contrary_config
 def check_relations(cfg, a, b, cl2=None):
     """All coherence relations on the real code; returns list of (relation, detail)."""
     fails = []
@@ -61,7 +62,7 @@ def check_relations(cfg, a, b, cl2=None):
             fails.append(("contains(rel)", f"[{lo}, {hi}] vs {r.rel_effect_size}"))
     # duality
     excl = r.effect_size_ci_lower > 0 or r.effect_size_ci_upper < 0
-    near = abs(r.pvalue - (1 - cl)) < 1e-7 or min(abs(r.effect_size_ci_lower), abs(r.effect_size_ci_upper)) < 1e-9 * max(1.0, scale)
+    near = abs(r.pvalue - (1 - cl)) < 1e-6 * max(r.pvalue, 1 - cl) or min(abs(r.effect_size_ci_lower), abs(r.effect_size_ci_upper)) < 1e-9 * max(1.0, scale)
     if not near and ((r.pvalue < 1 - cl) != excl):
         fails.append(("duality", f"p={r.pvalue} 1-cl={1 - cl} ci=[{r.effect_size_ci_lower},{r.effect_size_ci_upper}]"))
     # complementarity
@@ -168,6 +169,33 @@ def oracle(ctx, deep=False):
                         for what, detail in fails:
                             ctx.violations.append({"what": what, "detail": detail, "input": {
                                 "cfg": meanx.cfg_json(cfg), "control": G.agg_json(a), "treatment": G.agg_json(b), "cl2": "99/100"}})
+    # extreme but valid levels (within 1e-9 .. 1e-15 of 1, and tiny two-sided levels) with statistics far on either side
+    for ut in (False, True):
+        for alt in meanx.ALTS:
+            for cl in (1 - 1e-9, 1 - 1e-12, 1 - 1e-13, 1 - 1e-14, 1 - 1e-15) + ((1e-9, 1e-13) if alt == "two-sided" else ()):
+                for z in (-40.0, -12.0, -3.0, 3.0, 12.0, 40.0):
+                    n1, n2, v = 40, 50, 4.0
+                    m1 = 100.0
+                    m2 = m1 + z * (v / n1 + v / n2) ** 0.5
+                    cfg = {"numer": "x", "denom": None, "numer_covariate": None, "denom_covariate": None,
+                           "alternative": alt, "confidence_level": F(cl), "equal_var": False, "use_t": ut,
+                           "alpha": F(1, 20), "ratio": F(1), "power": F(4, 5)}
+                    a = A.Aggregates(count_=n1, mean_={c: m1 for c in G.COLS}, var_={c: v for c in G.COLS},
+                                     cov_={(p, q_): 0.0 for p in G.COLS for q_ in G.COLS if p < q_})
+                    b = A.Aggregates(count_=n2, mean_={c: m2 for c in G.COLS}, var_={c: v for c in G.COLS},
+                                     cov_={(p, q_): 0.0 for p in G.COLS for q_ in G.COLS if p < q_})
+                    fails = check_relations(cfg, a, b, None) or []
+                    r = _metric(cfg).analyze_aggregates(a, b)
+                    if _metric(cfg).confidence_level != cl:
+                        fails.append(("level kept", f"metric.confidence_level = {_metric(cfg).confidence_level!r} for {cl!r}"))
+                    if not all(math.isfinite(x) for x, side in ((r.effect_size_ci_lower, "greater"), (r.effect_size_ci_upper, "less"))
+                               if alt in ("two-sided", side)):
+                        fails.append(("finite bound at a level below 1", f"[{r.effect_size_ci_lower}, {r.effect_size_ci_upper}] at {cl!r}"))
+                    sweep += 1
+                    ctx.count("oracle:extreme-level")
+                    for what, detail in fails:
+                        ctx.violations.append({"what": what, "detail": detail, "input": {
+                            "cfg": meanx.cfg_json(cfg), "control": G.agg_json(a), "treatment": G.agg_json(b), "cl2": None}})
     ctx.evaluations += sweep
     ctx.extra["boundary_sweep_cases"] = sweep
 
